@@ -68,9 +68,19 @@ var realType = component.MustNewType("kreal")
 
 type realCfg struct{}
 
-func newRealExporter(sig kit.Signal, kind, scenario string, n1, n2 int, sk *sink) (*realExporter, error) {
+// capOpts: what the exporter's author says about mutation with an explicit WithCapabilities option, written before or
+// after the queue / batcher options (otlp, otlphttp and debug exporters all pass MutatesData: false explicitly).
+var capOpts = []string{"none", "false-before", "false-after", "true-before", "true-after"}
+
+func newRealExporter(sig kit.Signal, kind, scenario, capOpt string, n1, n2 int, sk *sink) (*realExporter, error) {
 	set := exportertest.NewNopSettings(realType)
 	var opts []exporterhelper.Option
+	switch capOpt {
+	case "false-before":
+		opts = append(opts, exporterhelper.WithCapabilities(consumer.Capabilities{MutatesData: false}))
+	case "true-before":
+		opts = append(opts, exporterhelper.WithCapabilities(consumer.Capabilities{MutatesData: true}))
+	}
 	minSize, maxSize := int64(n1+n2), int64(0) // merge: the first request waits for the second one
 	if scenario == "split" {
 		minSize, maxSize = 1, int64(max(1, n1/2)) // the first request is over max_size
@@ -95,6 +105,12 @@ func newRealExporter(sig kit.Signal, kind, scenario string, n1, n2 int, sk *sink
 		opts = append(opts, exporterhelper.WithQueue(q), exporterhelper.WithBatcher(b))
 	case "legacy-batcher-queue-off":
 		opts = append(opts, exporterhelper.WithBatcher(b))
+	}
+	switch capOpt {
+	case "false-after":
+		opts = append(opts, exporterhelper.WithCapabilities(consumer.Capabilities{MutatesData: false}))
+	case "true-after":
+		opts = append(opts, exporterhelper.WithCapabilities(consumer.Capabilities{MutatesData: true}))
 	}
 	ctx := context.Background()
 	switch sig {
@@ -243,6 +259,7 @@ func realFanout(sig kit.Signal, e *realExporter, sibs []*sib, exporterFirst bool
 type realCase struct {
 	Signal        kit.Signal `json:"signal"`
 	Exporter      string     `json:"exporter_config"`
+	Capability    string     `json:"explicit_capability_option"`
 	Scenario      string     `json:"scenario"`
 	Siblings      string     `json:"siblings"` // r = non-mutating, m = mutating, upper case = asynchronous
 	ReadOnly      bool       `json:"read_only_input"`
@@ -261,26 +278,31 @@ func realL1(c *driver.Ctx, sig kit.Signal, kind, scenario, vec string, ro bool, 
 	r2 := kit.NewPayload(sig, kit.Msg{Tag: "real-2"}, rng)
 	n1, n2 := r1.Items(), r2.Items()
 	w := realCase{Signal: sig, Exporter: kind, Scenario: scenario, Siblings: vec, ReadOnly: ro, ExporterFirst: rng.Intn(2) == 0, Items: [2]int{n1, n2}, Seed: seed}
-	sg := []string{"level", "L1", "front", "real-exporter", "signal", string(sig), "exporter", kind, "scenario", scenario, "ro_input", fmt.Sprint(ro)}
+	capOpt := capOpts[rng.Intn(len(capOpts))]
+	w.Capability = capOpt
+	sg := []string{"level", "L1", "front", "real-exporter", "signal", string(sig), "exporter", kind, "scenario", scenario, "ro_input", fmt.Sprint(ro), "capopt", capOpt}
 	vio := func(sub, what string, extra ...string) {
 		w.Problems = append(w.Problems, what)
 		c.Violation(sub, what, w, append(append([]string(nil), sg...), extra...)...)
 	}
 	sk := &sink{}
-	e, err := newRealExporter(sig, kind, scenario, n1, n2, sk)
+	e, err := newRealExporter(sig, kind, scenario, capOpt, n1, n2, sk)
 	if err != nil {
 		vio("real-exporter-build", "exporterhelper refused the configuration: "+err.Error())
 		return
 	}
-	c.Nontrivial("L1-real", sig, kind, scenario, vec, ro)
+	c.Nontrivial("L1-real", sig, kind, scenario, vec, ro, capOpt)
 	c.Observe("L1_real_exporter_cases", 1)
 	c.Observe("L1_real_exporter_cases:"+kind, 1)
+	c.Observe("L1_real_exporter_capability_option:"+capOpt, 1)
 
-	// static oracle
+	// static oracle: the exporter stage acts on the original payload whenever it batches, whatever its author declared;
+	// without batching it mutates nothing, so only an explicit "true" makes it a mutating stage
 	declared := e.next.Capabilities().MutatesData
-	staticOK := declared == batching(kind)
+	wantDeclared := batching(kind) || capOpt == "true-before" || capOpt == "true-after"
+	staticOK := declared == wantDeclared
 	if !staticOK {
-		vio("exporter-capability", fmt.Sprintf("%s exporter built with %s advertises MutatesData=%v, but its batcher merges / splits the payload it is handed: %v", sig, kind, declared, batching(kind)), "declared", fmt.Sprint(declared))
+		vio("exporter-capability", fmt.Sprintf("%s exporter built with %s (explicit capability option: %s) advertises MutatesData=%v, want %v (its batcher merges / splits the payload it is handed: %v)", sig, kind, capOpt, declared, wantDeclared, batching(kind)), "declared", fmt.Sprint(declared))
 	}
 	var wg sync.WaitGroup
 	var sibs []*sib
